@@ -339,9 +339,20 @@ theorem workerCancelled_R {p q : Pool} (h : er t p = er t q) (t' : Nat) (tk : PT
     er t (p.workerCancelled t' tk) = er t (q.workerCancelled t' tk) :=
   R_fac (fun x => workerCancelled_fac x t' tk) h
 
-theorem workerNext_R {p q : Pool} (h : er t p = er t q) (t' : Nat) : er t (p.workerNext t') = er t (q.workerNext t') := by
+theorem workerNext_fac (p : Pool) (t' : Nat) (tk : PTask) :
+    er t (p.workerNext t' tk) = er t ((er t p).workerNext t' tk) := by
   unfold workerNext
-  refine suspendTask_R ?_ _ _; exact modTask_R' (logEv_R h _ _ rfl) _ _ (by ertac2)
+  simp only [reqOf_er]
+  refine suspendTask_R ?_ _ _
+  refine runHooks_R ?_ _ _
+  exact modTask_R' (logEv_R (er_er p).symm _ _ rfl) _ _ (by ertac2)
+
+theorem workerNext_R {p q : Pool} (h : er t p = er t q) (t' : Nat) (tk : PTask) :
+    er t (p.workerNext t' tk) = er t (q.workerNext t' tk) :=
+  R_fac (fun x => workerNext_fac x t' tk) h
+
+theorem workerNext_tk (p : Pool) (t' : Nat) (tk : PTask) : p.workerNext t' (erAt t t' tk) = p.workerNext t' tk := by
+  unfold erAt; split <;> rfl
 
 theorem workerCancelled_tk (p : Pool) (t' : Nat) (tk : PTask) : p.workerCancelled t' (erAt t t' tk) = p.workerCancelled t' tk := by
   unfold erAt; split <;> rfl
@@ -352,7 +363,7 @@ future is not erased, so the two sides agree on it -/
 theorem stepInWorker_fac (p : Pool) (t' : Nat) (tk : PTask) (hph : tk.phase = .inWorker) :
     er t (p.stepInWorker t' tk) = er t ((er t p).stepInWorker t' (erAt t t' tk)) := by
   unfold stepInWorker
-  simp only [erAt_fut_cancelled, erAt_mustCancel, erAt_awaitsLeft, workerCancelled_tk]
+  simp only [erAt_fut_cancelled, erAt_mustCancel, erAt_awaitsLeft, workerCancelled_tk, workerNext_tk]
   split
   · refine workerCancelled_R ?_ _ _; exact modTask_R' (er_er p).symm _ _ (by ertac2)
   · by_cases htt : t = t'
@@ -367,14 +378,14 @@ theorem stepInWorker_fac (p : Pool) (t' : Nat) (tk : PTask) (hph : tk.phase = .i
       · simp only [ne_eq, ha, not_false_eq_true, ↓reduceIte]
         split
         · split
-          · exact workerNext_R (er_er p).symm _
+          · exact workerNext_R (er_er p).symm _ _
           · exact afterWorker_R (er_er p).symm _ _ _ (fun _ => rfl)
         · exact afterWorker_R (er_er p).symm _ _ _ (fun _ => rfl)
         · simp
     · simp only [erAt, htt, ↓reduceIte]
       split
       · split
-        · exact workerNext_R (er_er p).symm _
+        · exact workerNext_R (er_er p).symm _ _
         · exact afterWorker_R (er_er p).symm _ _ _ (fun _ => rfl)
       · exact afterWorker_R (er_er p).symm _ _ _ (fun _ => rfl)
       · simp
